@@ -102,7 +102,7 @@ theorem fromStrU_err {n radix intN fracN : Nat} {bytes : List Nat} {e : Nat}
 
 /-- C08 in full, from the contract of the decimal fraction converter -/
 theorem C08_of_decFrac (h : DecFracSpec) : Sfx.C08.C08_statement := by
-  intro L hL radix hr bytes _
+  intro L hL radix hr bytes
   obtain ⟨s, n, f⟩ := L
   obtain ⟨hn, hf⟩ := hL
   dsimp only at hn hf
